@@ -172,6 +172,27 @@ def _arms(expr: ast.AST, fn: ast.AST, depth: int = 0):
     yield expr, ""
 
 
+def _is_buffer_line(name: str, fn: ast.AST, depth: int = 0) -> bool:
+    """`name` is (a copy / slice of) the part of self.buffer before the
+    separator: bound from self.buffer.split/partition(...) or self.buffer[:i]."""
+    if depth > 3:
+        return False
+    for st in walk(fn):
+        if not isinstance(st, ast.Assign):
+            continue
+        tnames = [x.id for t in st.targets for x in walk(t) if isinstance(x, ast.Name)]
+        if name not in tnames:
+            continue
+        for x in walk(st.value):
+            if isinstance(x, ast.Call) and method_call(x) and method_call(x)[1] in ("split", "partition", "rsplit", "rpartition") and dotted(method_call(x)[0]) == "self.buffer":
+                return True
+            if isinstance(x, ast.Subscript) and dotted(x.value) == "self.buffer" and isinstance(x.slice, ast.Slice) and x.slice.lower is None:
+                return True
+        if isinstance(st.value, ast.Name) and _is_buffer_line(st.value.id, fn, depth + 1):
+            return True
+    return False
+
+
 def length_limit_consistency(chk: Check, rule: str, fi, sep_len: int = 2) -> None:
     """Early rejection of an *unterminated* buffer must leave room for a pending,
     partly received terminator: if a complete line is refused from length t_T on,
@@ -206,7 +227,7 @@ def length_limit_consistency(chk: Check, rule: str, fi, sep_len: int = 2) -> Non
                 absent = ("not in self.buffer" in ctx) or ("not (" in ctx and (">= 0" in ctx or "!= -1" in ctx or " in self.buffer" in ctx)) or ("< 0" in ctx) or ("== -1" in ctx)
                 if absent:
                     unterminated.append((t, cmp))
-            elif isinstance(arm, ast.Call) and dotted(arm.func) == "len" and arm.args and isinstance(arm.args[0], ast.Name) and "line" in arm.args[0].id:
+            elif isinstance(arm, ast.Call) and dotted(arm.func) == "len" and arm.args and isinstance(arm.args[0], ast.Name) and _is_buffer_line(arm.args[0].id, fi.node):
                 terminated.append((t, cmp))
             elif isinstance(arm, ast.Call) and method_call(arm) and method_call(arm)[1] in ("find", "index") and dotted(method_call(arm)[0]) == "self.buffer":
                 terminated.append((t, cmp))
